@@ -632,4 +632,30 @@ theorem C07_treeinfo_legacy_witness :
     ∧ isOk (tiLoads (exTI00 c!"")) = false
     ∧ isOk (tiLoads (exTI03 c!"product")) = true ∧ isOk (tiLoads (exTI03 c!"release")) = false := by decide +kernel
 
+
+/-! ### child lists that form a cycle -/
+
+def exCycDoc (vs : List (Str × PyVal)) : PyVal :=
+  .dict [(c!"header", .dict [(c!"version", .str c!"1.2"), (c!"type", .str c!"productmd.composeinfo")]),
+         (c!"payload", .dict [(c!"compose", .dict [(c!"id", .str c!"F-1-20200101.n.0"), (c!"date", .str c!"20200101"), (c!"type", .str c!"nightly"),
+                                                   (c!"respin", .int 0)]),
+                              (c!"release", .dict [(c!"name", .str c!"F"), (c!"short", .str c!"F"), (c!"version", .str c!"1"), (c!"type", .str c!"ga")]),
+                              (c!"variants", .dict vs)])]
+
+def isRecursion : Except Err ComposeInfoM → Bool | .error .runtimeError => true | _ => false
+
+/-- a child-list cycle that is reachable from a top-level variant never ends (every reference builds a fresh `Variant`, so the
+identity test "Dependency cycle detected" of `VariantBase.add` cannot fire on load): RecursionError — a self-loop and a 2-cycle
+below `T`.  A cycle none of whose members is a top-level variant is never read: the document loads with no variants at all. -/
+theorem C07_cycle_witness :
+    isRecursion (ciLoads (exCycDoc [(c!"T", exVarDoc c!"T" c!"T" [c!"x86_64"] (some [c!"x"])),
+                                    (c!"T-x", exVarDoc c!"x" c!"T" [c!"x86_64"] (some [c!"x"]))])) = true
+    ∧ isRecursion (ciLoads (exCycDoc [(c!"T", exVarDoc c!"T" c!"T" [c!"x86_64"] (some [c!"x"])),
+                                      (c!"T-x", exVarDoc c!"x" c!"T-x" [c!"x86_64"] (some [c!"y"])),
+                                      (c!"T-x-y", exVarDoc c!"y" c!"T" [c!"x86_64"] (some [c!"x"]))])) = true
+    ∧ (match ciLoads (exCycDoc [(c!"P-Q", exVarDoc c!"Q" c!"P-Q" [c!"x86_64"] (some [c!"R"])),
+                                (c!"P-Q-R", exVarDoc c!"R" c!"P" [c!"x86_64"] (some [c!"Q"]))]) with
+        | .ok m => m.variants.isEmpty
+        | .error _ => false) = true := by decide +kernel
+
 end PM
